@@ -29,6 +29,7 @@ fn main() {
 		"C01" => checks::c01::run(&args),
 		"C02" => checks::c02::run(&args, "C02"),
 		"C03" => checks::c02::run(&args, "C03"),
+		"C04" => checks::c04::run(&args),
 		"C05" => checks::c05::run(&args),
 		"C09" => checks::c09::run(&args),
 		"C10" => checks::c10::run(&args),
